@@ -21,6 +21,29 @@ def norm_snip(s):
     return s[:90]
 
 
+def owner_of(short):
+    """the type (methods, closures inside them) or module (free functions) a function belongs to, from its printed path:
+    keys built from it survive the rename of a private function and the renumbering of closures"""
+    s = re.sub(r"(::\{closure#\d+\})+$", "", short)
+    s = re.sub(r"::\{closure#\d+\}", "", s)
+    if s.startswith("<"):
+        # `<T as Trait>::method`
+        depth = 0
+        for i, ch in enumerate(s):
+            depth += ch == "<"
+            depth -= ch == ">"
+            if depth == 0:
+                return s[: i + 1]
+        return s
+    return s.rsplit("::", 1)[0] if "::" in s else s
+
+
+def message_of(snippet):
+    """the first string literal of the macro call (its message), without the arguments"""
+    m = re.search(r'"((?:[^"\\\\]|\\\\.)*)"', snippet or "")
+    return norm_snip(m.group(1)) if m else "-"
+
+
 class Site:
     def __init__(self, fn, term, macro, snippet, cls):
         self.fn = fn
@@ -30,7 +53,7 @@ class Site:
         self.cls = cls  # 'todo' | 'delegation' | 'panic' | 'assert' | 'unwrap'
 
     def key(self):
-        return "%s|%s|%s" % (self.fn.short, self.macro, norm_snip(self.snippet))
+        return "%s|%s|%s" % (owner_of(self.fn.short), self.macro, message_of(self.snippet))
 
     def where(self):
         return self.fn.where(self.term)
